@@ -1,2 +1,40 @@
-(* C06 — statements are added as the proofs land; placeholder so the build has the file *)
-From Verif Require Import Base.Bytes Store.Model.
+(* C06 — every accepted change is rebroadcast to every live ancestor, and to nothing else.
+   Statements only; proofs in Store/GraphWalk.v and Store/ProofsTop.v. *)
+From Verif Require Import Base.Bytes Store.GraphCount Store.GraphWalk Store.Model Store.ProofsRows Store.ProofsHash Store.ProofsTop.
+From Verif Require Import Properties.StoreExample.
+Local Open Scope N_scope.
+
+(* for an accepted request on node id, the ids a on whose subject up.<a>.<id>[.<parent>] the
+   points are republished are exactly the ends of upward walks from id (the empty walk gives id
+   itself, the sentinel "root" is reached through the root's edge) through non-deleted edges for
+   node points, through any edges for edge points: completeness and no leak in one statement *)
+Theorem C06_complete :
+  forall st o, wf st -> Inv st -> op_ok o -> reply_of (handle st o) = 0 ->
+    let st' := state_of (handle st o) in
+    forall a, In a (pubs_of (handle st o)) <->
+      match o with
+      | NodePts id _ => exists l, gswalk (s_edges st') (sel_of false) id l /\ gendpoint id l = a
+      | EdgePts id _ _ => exists l, gswalk (s_edges st') (sel_of true) id l /\ gendpoint id l = a
+      end.
+Proof. exact handle_pubs. Qed.
+Print Assumptions C06_complete.
+
+Theorem C06_closure :
+  forall st incl x a, wf st ->
+    (In a (pubs (s_edges st) incl (fuel_of (s_edges st)) x) <->
+     exists l, gswalk (s_edges st) (sel_of incl) x l /\ gendpoint x l = a).
+Proof. exact pubs_exact. Qed.
+Print Assumptions C06_closure.
+
+(* refused requests publish nothing *)
+Theorem C06_only_accepted :
+  forall st o, reply_of (handle st o) <> 0 -> pubs_of (handle st o) = [].
+Proof. intros st o H. exact (proj2 (error_no_trace st o H)). Qed.
+Print Assumptions C06_only_accepted.
+
+(* non-vacuity: in the example state a node point write to c (edge a->c deleted, b->c live) is
+   republished on c, b, r and the root sentinel, not on a; an edge point write also on a *)
+Example C06_example :
+  pubs (s_edges ex_st) false (fuel_of (s_edges ex_st)) id_c = [id_c; id_b; id_r; str_root] /\
+  pubs (s_edges ex_st) true (fuel_of (s_edges ex_st)) id_c = [id_c; id_a; id_r; str_root; id_b; id_r; str_root].
+Proof. vm_compute. split; reflexivity. Qed.
